@@ -105,7 +105,7 @@ def oracle(spec, res):
         bad = []
         for d in sorted(tr.desc(a['ev'], upto_seq=a['end'])):
             st = tr.state_at(d, a['end'])
-            if not Trace.st_complete(st):
+            if not (Trace.st_complete if d == a['ev'] else Trace.st_done)(st):
                 bad.append((d, st))
         if bad:
             clause = 'child_incomplete_at_await_end' if any(d == a['ev'] for d, _ in bad) else 'descendant_incomplete_at_await_end'
